@@ -140,6 +140,13 @@ _ext("C06", "caller's Opts only read (points-to); octahedron rules of the reader
 _ext("C15", "all-iterations rule: every call of every goroutine is walked")
 _ext("C16", "role propagation of the -f/-m expressions from Main to the writers, all paths of Main (NI-flags)")
 _ext("C18", "probe-result rule: a root is recorded only from a probe result that ends with the probed directory (LOC-root-suffix)")
+# round 6 additions
+_ext("C09", "scanner reference comparison for the remainder clause; who-may-call rule on fill")
+_ext("C11", "who-may-call rule: fill has one call site, the guarded refill point")
+_ext("C13", "all-roots rule: a loop over roots is left early only by a match")
+_ext("C18", "role wiring of the four roots from the snapshot to Call.updateLocations (LOC-wiring); all-roots rule")
+_ext("C19", "points-to: cached syntax trees are never written (EF-ast-readonly)")
+_ext("C20", "lock pairing dataflow (WEB-lock); documentation/code agreement of maxmem default and minimum (WEB-doc); capture protocol decided capture by capture")
 for k in list(CLAIMED): NA.pop(k, None)
 try:
     exec(open(os.path.join(V, "tools", "manifest_table.py")).read())
